@@ -37,6 +37,7 @@ pub fn type_code() -> impl Strategy<Value = u8> {
         1 => Just(2u8),
         1 => Just(5u8),
         1 => Just(15u8),
+        1 => Just(0u8),
     ]
 }
 
@@ -90,6 +91,22 @@ pub fn msg_header(mtype: u8, timestamped: Option<bool>) -> impl Strategy<Value =
             seg_count,
             seg_num,
             }
+        })
+        .prop_flat_map(move |h| {
+            // degenerate headers: every field zero (apart from the type code and, when the caller asks for a valid
+            // time stamp, date/time) - "padding-like" frames are messages too
+            let zero = MsgHeaderSpec {
+                rpg: [0; 12],
+                size: 0,
+                channel: 0,
+                mtype,
+                seq: 0,
+                date: if timestamped == Some(true) { h.date } else { 0 },
+                time: if timestamped == Some(true) { h.time } else { 0 },
+                seg_count: 0,
+                seg_num: 0,
+            };
+            prop_oneof![14 => Just(h), 1 => Just(zero)]
         })
 }
 
